@@ -156,11 +156,16 @@ Definition is_int (v : val) : bool := match v with VInt _ => true | _ => false e
 
 (* _check_value_key outside lenient mode, on the value space of the generators
    (ints, lower-case words that YAML reads as strings, lists of those, None) *)
+(* Python booleans (Any-typed arguments only) are encoded as the reserved strings "<true>" / "<false>": they are no str *)
+Definition s_true : str := [60;116;114;117;101;62]%N.
+Definition s_false : str := [60;102;97;108;115;101;62]%N.
+Definition is_boolenc (s : str) : bool := str_eqb s s_true || str_eqb s s_false.
+
 Definition accepts (t : ty) (v : val) : bool :=
   match t, v with
   | TAny, _ => true
   | TInt, VInt _ => true
-  | TStr, VStr _ => true
+  | TStr, VStr s => negb (is_boolenc s)
   | TListInt, VList l => forallb is_int l
   | _, _ => false
   end.
